@@ -15,7 +15,11 @@ typedef struct { const char * bytes; size_t len; int items; } emis_t;
 static const emis_t emis[NT] = {
     {"7", 1, 1}, {"#HFF", 4, 1}, {"-5", 2, 1}, {"1.5", 3, 1}, {"1", 1, 1}, {"\"a\"\"b\"", 6, 1}, {"XY", 2, 1}, {"#13a;b", 6, 1},
     {"#13abc", 6, 1}, {"1,-2,3", 6, 3}, {"", 0, 0}, {"2.5", 3, 1}, {"#Q10", 4, 1}, {"#18\0\0\0\1\0\0\0\2", 11, 1}, {"#10", 3, 1},
+#if USE_DEVICE_DEPENDENT_ERROR_INFORMATION && USE_MEMORY_ALLOCATION_FREE
+    {"-113,\"Undefined header;it's a \"\"b\"\"\"", 36, 2},         /* the text holds an apostrophe (left alone) and double quotes (doubled) */
+#else
     {"-113,\"Undefined header\"", 23, 2},
+#endif
 };
 static unsigned rot_impl, rot_model;
 
@@ -41,7 +45,11 @@ static void emit(scpi_t * c) {
         case 12: SCPI_ResultUInt64Base(c, 8, 8); break;
         case 13: SCPI_ResultArrayInt32(c, a32, 2, SCPI_FORMAT_NORMAL); break;
         case 14: SCPI_ResultArrayDouble(c, ad, 0, SCPI_FORMAT_NORMAL); break;
-        default: memset(&e, 0, sizeof e); e.error_code = -113; SCPI_ResultError(c, &e); break;
+        default: memset(&e, 0, sizeof e); e.error_code = -113;
+#if USE_DEVICE_DEPENDENT_ERROR_INFORMATION && USE_MEMORY_ALLOCATION_FREE
+            e.device_dependent_info = (char *) "it's a \"b\"";
+#endif
+            SCPI_ResultError(c, &e); break;
     }
 }
 
@@ -73,8 +81,19 @@ static scpi_result_t h_big(scpi_t * c) {
     free(a);
     return SCPI_RES_OK;
 }
+/* a block of n bytes as the FIRST item of its unit, followed by a second item */
+static scpi_result_t h_blkn(scpi_t * c) {
+    int32_t n = 0; char * d;
+    if (!SCPI_ParamInt32(c, &n, TRUE)) return SCPI_RES_ERR;
+    d = (char *) malloc((size_t) n + 1); memset(d, 'x', (size_t) n);
+    if (n & 1) SCPI_ResultArbitraryBlock(c, d, (size_t) n);
+    else { size_t off = 0; SCPI_ResultArbitraryBlockHeader(c, (size_t) n); while (off < (size_t) n) { size_t k = (size_t) n - off < 30000 ? (size_t) n - off : 30000; SCPI_ResultArbitraryBlockData(c, d + off, k); off += k; } }
+    SCPI_ResultInt32(c, 7);
+    free(d);
+    return SCPI_RES_OK;
+}
 static const scpi_command_t cmds[] = {
-    {"QBIG?", h_big, 99},
+    {"QBIG?", h_big, 99}, {"QBLK?", h_blkn, 98},
     {"C0", h_generic, U_C0}, {"CE", h_generic, U_CE}, {"Q0?", h_generic, U_Q0}, {"Q1?", h_generic, U_Q1}, {"Q2?", h_generic, U_Q2}, {"Q4?", h_generic, U_Q4},
     {"Q0E?", h_generic, U_Q0E}, {"Q1E?", h_generic, U_Q1E}, {"Q2X?", h_generic, U_Q2X}, {"Q1P?", h_generic, U_Q1P}, {"Q0P?", h_generic, U_Q0P}, {"Q0X?", h_generic, U_Q0X},
     {"Q4E?", h_generic, U_Q4E}, {"QPART?", h_generic, U_QPART},
@@ -238,6 +257,27 @@ int main(int argc, char ** argv) {
                 for (i = k - 1; i >= 0; i--) { if (++idx[i] < NLU) break; idx[i] = 0; }
                 if (i < 0) break;
             }
+        }
+    }
+    {   /* blocks of 255 .. 131073 bytes as first item of a unit: total output length and hash against the model */
+        static const int sizes[] = {255, 256, 257, 65535, 65536, 65537, 70000, 131072, 131073};
+        int si;
+        for (si = 0; si < 9; si++) {
+            char msg[64], hdr[24]; int ml, hl, n = sizes[si], i2; uint64_t h = 0xcbf29ce484222325ULL; unsigned long long total;
+            if (!MC_CASE()) continue;
+            mc_case_tag = "big-block"; mc_case_i[0] = n;
+            ml = sprintf(msg, "Q1?;QBLK? %d;Q1?\n", n);
+            { char num[16]; int nl = sprintf(num, "%d", n); hl = sprintf(hdr, "7;#%d%s", nl, num); }
+#define HB(ch) do { h ^= (unsigned char) (ch); h *= 0x100000001b3ULL; } while (0)
+            for (i2 = 0; i2 < hl; i2++) HB(hdr[i2]);
+            for (i2 = 0; i2 < n; i2++) HB('x');
+            { const char * tail = ",7;#HFF"; for (i2 = 0; tail[i2]; i2++) HB(tail[i2]); for (i2 = 0; SCPI_LINE_ENDING[i2]; i2++) HB(SCPI_LINE_ENDING[i2]); }
+            total = (unsigned long long) hl + (unsigned long long) n + 7 + strlen(SCPI_LINE_ENDING);
+            tc_reinit(&T, cmds); rot_impl = 0; tr_reset();
+            SCPI_Input(&T.ctx, msg, ml);
+            n_msgs++;
+            if (OUT_TOTAL != total || OUT_HASH != h || tc_nerr) mc_viol("c06/big-block", "message [%s]: %llu bytes written (errors raised: %d), the model expects %llu bytes 7;#<digits>%d<data>,7;#HFF<terminator>%s", mc_e(msg, (size_t) ml), OUT_TOTAL, tc_nerr, total, n, OUT_TOTAL == total ? " - same length, different bytes" : "");
+            else n_responding++;
         }
     }
     if (mc_shard == 0) {
